@@ -144,13 +144,15 @@ type Case struct {
 	FPDescrH uint64            `json:"fp_descr_h,omitempty"`
 	FPOut    uint64            `json:"fp_out,omitempty"`
 	// process death / cross-check of the pipelined run against the stage-by-stage run
-	QTmpl      string `json:"qtmpl,omitempty"` // query with placeholders for the comparison thresholds (generator only)
-	ThI        string `json:"th_i,omitempty"`
-	ThO        string `json:"th_o,omitempty"`
-	CrashStage int    `json:"crash_stage"`
-	CrashTrace string `json:"crash_trace,omitempty"` // planner types named in the stack trace of the dying process
-	Pipelined  string `json:"pipelined,omitempty"`
-	PipeOut    *Out   `json:"pipe_out,omitempty"`
+	QTmpl      string   `json:"qtmpl,omitempty"` // query with placeholders for the comparison thresholds (generator only)
+	ThI        string   `json:"th_i,omitempty"`
+	ThO        string   `json:"th_o,omitempty"`
+	Pipes      []string `json:"pipes"`  // kinds of the pipeline stages of the parsed query, before the split
+	Absent     bool     `json:"absent"` // the range aggregation is absent_over_time
+	CrashStage int      `json:"crash_stage"`
+	CrashTrace string   `json:"crash_trace,omitempty"` // planner types named in the stack trace of the dying process
+	Pipelined  string   `json:"pipelined,omitempty"`
+	PipeOut    *Out     `json:"pipe_out,omitempty"`
 }
 type PFH struct {
 	S string `json:"s"`
@@ -496,8 +498,18 @@ func planCase(c *Case) (procs []shared.RequestProcessor, matrix bool) {
 		c.Out.ErrMsg = err.Error()
 		return nil, false
 	}
+	c.Pipes, c.Absent = nil, false
 	if ss := shared.GetStrSelector(script); ss != nil {
 		c.NPipe = len(ss.Pipelines)
+		for i := range ss.Pipelines {
+			c.Pipes = append(c.Pipes, pipeKind(&ss.Pipelines[i]))
+		}
+	}
+	if script.LRAOrUnwrap != nil && script.LRAOrUnwrap.Fn == "absent_over_time" {
+		c.Absent = true
+	}
+	if script.AggOperator != nil && script.AggOperator.LRAOrUnwrap.Fn == "absent_over_time" {
+		c.Absent = true
 	}
 	c.BP, _ = lt.GetBreakpoint(script)
 	chain, err := lt.Plan(script)
@@ -544,6 +556,32 @@ func planCase(c *Case) (procs []shared.RequestProcessor, matrix bool) {
 		return nil, false
 	}
 	return procs, getter.Matrix
+}
+
+func pipeKind(p *logql_parser.StrSelectorPipeline) string {
+	switch {
+	case p.LineFilter != nil:
+		return "line_filter"
+	case p.LabelFilter != nil:
+		return "label_filter"
+	case p.Parser != nil:
+		switch {
+		case p.Parser.Fn == "json" && len(p.Parser.ParserParams) == 0:
+			return "json"
+		case p.Parser.Fn == "json":
+			return "json_params"
+		case p.Parser.Fn == "logfmt":
+			return "logfmt"
+		}
+		return "regexp"
+	case p.LineFormat != nil:
+		return "line_format"
+	case p.LabelFormat != nil:
+		return "label_format"
+	case p.Unwrap != nil:
+		return "unwrap"
+	}
+	return "drop"
 }
 
 func setMain(p, m shared.RequestProcessor) { mainField(p).Set(reflect.ValueOf(m)) }
@@ -1203,6 +1241,13 @@ func genCase(r *rand.Rand, id int, pl *pools) Case {
 	if gp.metric {
 		fn := pick(r, rangeFns)
 		inner := pipe
+		if !gp.unwrap && r.Intn(10) == 0 {
+			fn = "absent_over_time"
+			if r.Intn(2) == 0 {
+				// nothing ClickHouse cannot run: the whole pipeline stays there, only the aggregation runs in process
+				inner = pre + pick(r, []string{"", " |= \"a\"", " | level=\"info\""})
+			}
+		}
 		if gp.unwrap {
 			fn = pick(r, unwrapFns)
 			inner += " | unwrap " + pick(r, []string{"n", "dur", "_entry", "level"})
